@@ -60,7 +60,19 @@ Definition stmt_contexts (stmt : node) : list (Z * pctx) :=
   else if String.eqb k "UpdateStmt" then
     flat_map (fun t => match bare_param (kid "Val" t) with
                        | Some p => [(p, CTarget (str_of "Name" t))]
-                       | None => contexts (kid "Val" t) end) (kid_items "TargetList" stmt)
+                       | None =>
+                           (* SET (c1, .., cn) = (v1, .., vn): the Colno-th value of the row belongs to this column *)
+                           let v := kid "Val" t in
+                           if is_kind "MultiAssignRef" v && is_kind "RowExpr" (kid "Source" v) then
+                             match nth_error (kid_items "Args" (kid "Source" v)) (Z.to_nat (int_of "Colno" v - 1)) with
+                             | Some a => match bare_param a with
+                                         | Some p => [(p, CTarget (str_of "Name" t))]
+                                         | None => contexts a
+                                         end
+                             | None => []
+                             end
+                           else contexts v
+                       end) (kid_items "TargetList" stmt)
     ++ contexts (kid "WhereClause" stmt) ++ contexts (kid "ReturningList" stmt)
   else if String.eqb k "DeleteStmt" then
     contexts (kid "WhereClause" stmt) ++ contexts (kid "ReturningList" stmt)
